@@ -728,35 +728,69 @@ def open_dataset(file_name, engine=None, chunks=None, **kw):
     return ds
 
 
-def concat(objs, dim):
+def concat(objs, dim, join="outer", **kw):
+    """concatenate along a NEW dimension; the other dimensions are aligned with `join`
+    ('outer': sorted union of unequal indexes, NaN fill; 'override': positions of the first object)"""
     objs = [o.to_dataset() if isinstance(o, DataArray) else o for o in objs]
     if not objs:
         raise ValueError("must supply at least one object to concatenate")
+    if kw:
+        unknown = [k for k in kw if k not in ("data_vars", "coords", "compat", "fill_value", "combine_attrs")]
+        if unknown:
+            raise TypeError("concat() got an unexpected keyword argument %r" % unknown[0])
     first = objs[0]
+    for o in objs[1:]:
+        if list(o._vars) != list(first._vars):
+            raise ValueError("variables %r are present in some datasets but not others." % (set(o._vars) ^ set(first._vars),))
+        if set(o._coords) != set(first._coords):
+            raise ValueError("concat of objects with different dimensions is not modelled")
+    if join == "override":
+        aligned = []
+        for o in objs:
+            for d in first._coords:
+                if len(o._coords[d]) != len(first._coords[d]):
+                    raise ValueError("cannot align objects with join='override' with matching indexes along "
+                                     "dimension %r that don't have the same size" % (d,))
+            q = o.copy()
+            for d in first._coords:
+                if list(q._coords[d]) != list(first._coords[d]):
+                    q._relabel(d, q._coords[d], list(first._coords[d]))
+            aligned.append(q)
+        objs = aligned
+        coords = {d: list(v) for d, v in first._coords.items()}
+    elif join in ("outer", "exact", "inner", "left", "right"):
+        coords = {d: list(v) for d, v in first._coords.items()}
+        for o in objs[1:]:
+            for d in coords:
+                if list(coords[d]) != list(o._coords[d]):
+                    if join == "exact":
+                        raise ValueError("cannot align objects with join='exact' where index/labels/sizes are not equal")
+                    if join != "outer":
+                        raise ValueError("join=%r is not modelled" % (join,))
+                    if d in first._nocoord:
+                        raise ValueError("cannot reindex or align along dimension %r without an index" % (d,))
+                    coords[d] = _labels_union(coords[d], o._coords[d])
+    else:
+        raise ValueError("invalid value for join: %r" % (join,))
     labels = list(range(len(objs)))
     out = Dataset()
     out.attrs = dict(first.attrs)
     out._coords = {dim: labels}
     out._nocoord.add(dim)
-    for d in first._coords:
-        out._coords[d] = list(first._coords[d])
+    out._coords.update(coords)
     out._nocoord |= set(first._nocoord)
-    for o in objs[1:]:
-        if {d: list(v) for d, v in o._coords.items()} != {d: list(v) for d, v in first._coords.items()}:
-            raise ValueError("concat of objects with different coordinates is not modelled")
-        if list(o._vars) != list(first._vars):
-            raise ValueError("variables %r are present in some datasets but not others." % (set(o._vars) ^ set(first._vars),))
     for n, da0 in first._vars.items():
         cells = {}
         for i, o in enumerate(objs):
             da = o._vars[n]
             if da.dims != da0.dims:
                 raise ValueError("concat: inconsistent dims")
+            da = da.reindexed(da.dims, coords)
             for k, v in da.cells.items():
                 cells[(i,) + k] = v
-        coords = {dim: labels}
-        coords.update(da0.coords_)
-        out._vars[n] = DataArray((dim,) + da0.dims, coords, cells, n)
+        vc = {dim: labels}
+        vc.update({d: coords[d] for d in da0.dims})
+        out._vars[n] = DataArray((dim,) + da0.dims, vc, cells, n)
     return out
 
 
